@@ -253,6 +253,23 @@ def gen_pattern_script(rnd, which):
     last) must not reach the session created next; 'dict' - sessions on different schemas share prism/table objects (reverse lookup,
     a schema with its own prism over another's table): deep paging after another session's lookup of the same code"""
     lines = []
+    if which == "saved-option":
+        # round 5: an option saved by someone else AFTER a session was created must not reach that session, whatever it does later
+        # (schema changes re-run the engine's option initialisation)
+        for rounds in range(rnd.randint(1, 3)):
+            opt = rnd.choice(["full_shape", "ascii_punct", "simplification", "extended_charset"])
+            lines += ["1 create", "1 get_option %s" % opt, "0 persist %s %d" % (opt, rnd.randint(0, 1) if rounds else 1)]
+            lines += ["1 select_schema %s" % rnd.choice(SCHEMAS), "1 get_option %s" % opt, "1 get_status", "1 key 32 0", "1 get_commit",
+                      "1 simulate ni{space}", "1 get_commit", "1 key 46 0", "1 get_commit", "1 destroy"]
+        return lines
+    if which == "idle-create":
+        # round 5: a session that receives no call for a long time stays as it is until a sweep is asked for: other clients'
+        # create_session calls in between change nothing for it
+        lines += ["1 create", "1 simulate ni", "1 get_context", "0 advance %d" % rnd.choice([301, 360, 900])]
+        for k in range(rnd.randint(1, 3)):
+            lines += ["%d create" % (2 + k), "%d key 97 0" % (2 + k)]
+        lines += ["1 find", "1 get_context", "1 key 32 0", "1 get_commit", "1 get_status", "1 destroy"]
+        return lines
     if which == "history":
         for rounds in range(rnd.randint(2, 4)):
             a, b = rnd.sample([1, 2, 3], 2)
@@ -377,8 +394,9 @@ def run(ctx):
     nscripts, length = (10, 90) if ctx.tier == "quick" else (60, 160)
     scripts = [gen_script(rnd, rnd.randint(2, 5), length) for _ in range(nscripts)]
     npat = 3 if ctx.tier == "quick" else 20
-    scripts += [gen_pattern_script(rnd, w) for w in ("history", "dict") for _ in range(npat)]
-    ctx.coverage["pattern_scripts"] = {"inherited_commit_history": npat, "shared_dictionary_objects": npat}
+    scripts += [gen_pattern_script(rnd, w) for w in ("history", "dict", "saved-option", "idle-create") for _ in range(npat)]
+    ctx.coverage["pattern_scripts"] = {"inherited_commit_history": npat, "shared_dictionary_objects": npat,
+                                       "option_saved_after_creation": npat, "idle_session_and_foreign_creates": npat}
     # corpus first
     cdir = os.path.join(vlib.VERIF, "corpus", "C16")
     if os.path.isdir(cdir):
@@ -459,6 +477,8 @@ def run(ctx):
             if op == "cleanup_stale":
                 sim_after = simulate(lines[:r["lineno"]])[1]
                 live_canon = {k: v for k, v in live_canon.items() if sim_after.get(k)}
+            if op in ("persist", "tick", "handler"):
+                continue      # harness-level inputs (another client's saved option, the virtual steady clock): no service call
             if op == "cleanup_all":
                 model_feed.append("cleanup")
                 model_expect.append((si, r, "unit"))
